@@ -770,9 +770,26 @@ KNOWN = {
         and v["case"].get("outcome") == "timeout",
 }
 
+def _shared_funcs():
+    from dateutil.tz import tz as tzmod
+    V = tzmod._tzicalvtz
+    funcs = [V._find_comp, V._find_compdt, V.utcoffset, V.dst]
+    tn = getattr(V.tzname, "__wrapped__", V.tzname)
+    if hasattr(tn, "__code__"):
+        funcs.append(tn)
+    return funcs
+
 def replay(ctx, payload):
     c = payload["violation"]["case"]
     print(payload["violation"]["what"])
+    if c.get("kind") in ("history", "threads") and c.get("text"):
+        import tzshared as S
+        mk = lambda: load(c["text"]).get()
+        with warnings.catch_warnings():
+            warnings.simplefilter("ignore")
+            if c["kind"] == "history":
+                return S.replay_history(mk(), mk, c["history_wire"])
+            return S.replay_threads(mk, mk, _shared_funcs(), "_cache_lock", c)
     if c.get("kind") == "malformed" and isinstance(payload["violation"].get("detail"), str):
         st, val = under_alarm(3.0, lambda: load(payload["violation"]["detail"]))
         print("load:", st, val)
@@ -801,18 +818,13 @@ def oracle_shared(ctx):
     import tzshared as S
     from dateutil import tz
     rng = ctx.subrng("shared")
-    from dateutil.tz import tz as tzmod
-    V = tzmod._tzicalvtz
-    funcs = [V._find_comp, V._find_compdt, V.utcoffset, V.dst]
-    tn = getattr(V.tzname, "__wrapped__", V.tzname)
-    if hasattr(tn, "__code__"):
-        funcs.append(tn)
+    funcs = _shared_funcs()
     for k in range(ctx.budget(4, 30)):
         spec = gen_spec(rng)
         text = vtimezone(spec, order=k % 2)
         mk = lambda text=text: load(text).get()
         shared = mk()
-        case = {"zone": "tzical", "tzstr": tzstr_of(spec)}
+        case = {"zone": "tzical", "tzstr": tzstr_of(spec), "text": text}
         def near(y, n=1):
             qs = []
             for tu in transitions_utc(spec, y):
@@ -857,7 +869,7 @@ def oracle_shared(ctx):
             k1 = ("comp", tu1[1] + datetime.timedelta(seconds=spec["std"] + 3600), 0)        # back on standard time
             k2 = ("off", tu1[0] + datetime.timedelta(seconds=spec["dst"] + 60), 0)
             for warm, jobs in (([k0], [[k1], [k1]]), ([k0], [[k1], [k0]]), ([k0, k2], [[k1], [k2]]), ([], [[k0], [k1]])):
-                if not S.threads(ctx, "tzical-two-threads", mk, mk, funcs, "_cache_lock", warm, jobs, dict(case, years=[y0, y1])):
+                if not S.threads(ctx, "tzical-two-threads", mk, mk, funcs, "_cache_lock", warm, jobs, dict(case, years=[y0, y1], text=text2)):
                     break
     ctx.count("shared_object_zones")
 
